@@ -177,13 +177,32 @@ def retained(insp):
         return sum(len(r.data) for r in regions_of(insp).values())
 
 
+def new_inspector(name, tracing=False):
+    """An inspector the way a caller may build it: FileInspector's public
+    constructor takes tracing=True (debug trace of what it finds); nothing
+    it concludes may depend on that."""
+    m = fi()
+    if tracing:
+        return m.ALL_FORMATS[name](tracing=True)
+    return m.ALL_FORMATS[name]()
+
+
+def streams_mod():
+    from sim import streams
+    return streams
+
+
+CHUNK_KINDS = [(None, 16), ('bytearray', 2), ('memoryview', 2),
+               ('mv_reused', 3), ('ba_reused', 2)]
+
+
 def drive_bare(name, data, sizes, qplan=None, watch_regions=True,
                mem_bound=None, log=None, feed_after_error=False, kind=None,
-               end=None):
+               end=None, tracing=False):
     """Feed one bare inspector.  qplan: {chunk_index: [query names]}.
     Returns dict(verdict, error, region_bad, max_retained, insp)."""
     m = fi()
-    insp = m.ALL_FORMATS[name]()
+    insp = new_inspector(name, tracing)
     pos = 0
     err = None
     rw = RegionWatch(data) if watch_regions else None
@@ -191,11 +210,9 @@ def drive_bare(name, data, sizes, qplan=None, watch_regions=True,
     mem_bad = []
     maxret = 0
     qres = []
-    conv = SimSource.KINDS.get(kind or 'bytes', bytes)
+    maker = streams_mod().ChunkMaker(kind, sizes)
     for idx, n in enumerate(sizes):
-        chunk = data[pos:pos + n]
-        if conv is not bytes:
-            chunk = conv(chunk)
+        chunk = maker.make(data[pos:pos + n])
         pos += n
         if err is None or feed_after_error:
             # feed_after_error: a caller that catches what eat_chunk raises
@@ -225,6 +242,8 @@ def drive_bare(name, data, sizes, qplan=None, watch_regions=True,
         elif err is not None and rw is None and not feed_after_error:
             # a failed inspector is not fed again: nothing can change any more
             break
+    # the producer's buffer (if it reuses one) is no longer the stream
+    maker.scrub()
     # how the stream is ended: finish() once, twice, or after one more empty
     # chunk - the verdict is about the bytes, not about the ceremony
     if end == 'empty_then_finish' and err is None:
@@ -453,7 +472,8 @@ def drive_wrapper(data, sizes, personality='iter', order=None, allowed=None,
                     chunk = next(w)
                 except StopIteration:
                     break
-            got.append(chunk)
+            # (a copy: the producer may reuse its buffer for the next chunk)
+            got.append(bytes(chunk))
             if watch_regions and len(bad) < 3:
                 for n, insp in wrapper_inspectors(w).items():
                     rw = rws.get(n)
